@@ -59,9 +59,10 @@ class Injected(Exception):
 
 
 class Plan:
-    """which user-function invocations of the current public call raise"""
+    """which user-function invocations of the current public call raise (and what they raise)"""
     ncall = 0
     fail_at = frozenset()
+    exc = None          # exception class to raise; None: Injected
 
     @classmethod
     def reset(cls, fail_at=()):
@@ -72,7 +73,7 @@ class Plan:
     def tick(cls):
         cls.ncall += 1
         if cls.ncall in cls.fail_at:
-            raise Injected("injected failure at invocation %d" % cls.ncall)
+            raise (cls.exc or Injected)("injected failure at invocation %d" % cls.ncall)
 
 
 def _uf(f):
